@@ -31,8 +31,19 @@ def as_cell(v):
     return v
 
 
+BLOCK = P + 'H1:I2'
+
+
 def template(t, a1=5, a2=3):
     """three model families; every referenced cell is present (no completion needed)"""
+    d = _template(t, a1, a2)
+    # a genuinely two-dimensional block, read as a whole and cell by cell
+    d.update({P + 'H1': 1.5, P + 'I1': 2, P + 'H2': 30, P + 'I2': 'w',
+              P + 'J1': '=SUM(%sH1:I2)' % P, P + 'J2': '=%sI1*10+%sH2' % (P, P), P + 'J3': '=%sI2&"!"' % P})
+    return d
+
+
+def _template(t, a1=5, a2=3):
     a1, a2 = as_cell(a1), as_cell(a2)
     if t == 0:      # arithmetic, IF guard, SUM over a range with a blank, cross-sheet, name, array formula
         return {
@@ -112,7 +123,7 @@ def norm(sol, only=None):
 
 
 RANGE = {0: (P + 'A1:A3', ['A1', 'A2', 'A3']), 1: (P + 'A2:A3', ['A2', 'A3']), 2: (P + 'A1:A3', ['A1', 'A2', 'A3'])}
-CELLS_OUT = [P + 'B1', P + 'B2', P + 'C1', Q + 'A1', P + 'D1', P + 'E1:F1', P + 'G1']
+CELLS_OUT = [P + 'B1', P + 'B2', P + 'C1', Q + 'A1', P + 'D1', P + 'E1:F1', P + 'J2']
 
 
 def override_sets():
@@ -124,6 +135,7 @@ def override_sets():
     sets.append(('name', {NAME: 9}))
     sets.append(('range', {P + 'A1:A3': [[2], [8], [1]]}))
     sets.append(('range2', {P + 'A2:A3': [[6], [2]]}))
+    sets.append(('block', {BLOCK: [[4, 7], [9, 'q']]}))
     sets.append(('formula', {P + 'B1': 100}))
     sets.append(('two', {P + 'A1': 1, P + 'A2': 0}))
     return sets
@@ -156,8 +168,12 @@ def apply_op(m, op):
         m.calculate(inputs={P + 'A1': pl[6], P + 'A2': pl[3]})
     elif op == 11:
         m.compile([NAME, P + 'A2'], [P + 'D1', P + 'C1'])(3, 4)
+    elif op == 12:
+        m.calculate(inputs={BLOCK: [[0, 1], [2, 3]]})
+    elif op == 13:
+        m.compile([BLOCK], [P + 'J1', P + 'J2'])([[5, 6], [7, 8]])
     else:
         raise ValueError(op)
 
 
-NOPS = 12
+NOPS = 14
